@@ -177,9 +177,85 @@ var selDict = []string{"-->", "-->input", " --> -->a", "a-->b", "--", "a-url(b)"
 
 var bracketDict = []string{"(", ")", "[", "]", ":not(", ":is(", "[a=", "a", ".b", " ", ",", "\"]\"", "')'", "\"(\"", "'['", "\\(", "\\]"}
 
+var strBodies = []string{"x", "", "}", "{", "){}*{color:red}", "]", ")", "(", "[", ";", "@import", "/*", "*/", "url(", "\\\"", "\\'", "\\\\", "\\\n", "\\7d ", "é", "-->", "a b", "=", "\\A ", "\\\r\n", "\t"}
+
+func genString(t *rapid.T) string {
+	q := rapid.SampledFrom([]string{"\"", "'"}).Draw(t, "q")
+	body := strs.From(3, strBodies).Draw(t, "strbody")
+	// the other quote is plain text inside the string
+	if rapid.IntRange(0, 3).Draw(t, "otherq") == 0 {
+		if q == "'" {
+			body += "\""
+		} else {
+			body += "'"
+		}
+	}
+	body = strings.ReplaceAll(body, q, "\\"+q)
+	return q + body + q
+}
+
+func genSimple(t *rapid.T, depth int) string {
+	id := rapid.SampledFrom([]string{"a", "div", "x-y", "_z", "--v", "B9"}).Draw(t, "ident")
+	if rapid.IntRange(0, 11).Draw(t, "oddident") == 0 {
+		// refused outside strings (backslash, non-ASCII): kept rare so that most selectors are accepted
+		id = rapid.SampledFrom([]string{"\\31 a", "h\\(", "é", "b\\]"}).Draw(t, "ident2")
+	}
+	switch rapid.IntRange(0, 7).Draw(t, "simple") {
+	case 0:
+		return id
+	case 1:
+		return "." + id
+	case 2:
+		return "#" + id
+	case 3:
+		return "*"
+	case 4:
+		op := rapid.SampledFrom([]string{"=", "^=", "$=", "*=", "~=", "|="}).Draw(t, "op")
+		val := id
+		if rapid.IntRange(0, 3).Draw(t, "quoted") > 0 {
+			val = genString(t)
+		}
+		flag := rapid.SampledFrom([]string{"", " i", " s"}).Draw(t, "flag")
+		return "[" + id + op + val + flag + "]"
+	case 5:
+		return "[" + id + "]"
+	case 6:
+		return rapid.SampledFrom([]string{":hover", "::before", ":nth-child(2n+1)", ":lang(" + "\"de\"" + ")", "::part(x)"}).Draw(t, "pseudo")
+	default:
+		fn := rapid.SampledFrom([]string{":not(", ":is(", ":where(", ":has(", "::slotted(", ":nth-child(2 of "}).Draw(t, "fn")
+		if depth <= 0 {
+			return fn + id + ")"
+		}
+		return fn + genSelector(t, depth-1) + ")"
+	}
+}
+
+func genSelector(t *rapid.T, depth int) string {
+	var b strings.Builder
+	n := rapid.IntRange(1, 4).Draw(t, "parts")
+	for i := 0; i < n; i++ {
+		if i > 0 {
+			b.WriteString(rapid.SampledFrom([]string{" ", ">", " > ", "+", "~", ", ", ",", "||", "  ", " ~ ", " ", ">", "\n", "\t"}).Draw(t, "comb"))
+		}
+		k := rapid.IntRange(1, 3).Draw(t, "compound")
+		for j := 0; j < k; j++ {
+			b.WriteString(genSimple(t, depth))
+		}
+	}
+	return b.String()
+}
+
 func gen(t *rapid.T) Case {
 	var c Case
-	switch rapid.IntRange(0, 4).Draw(t, "kind") {
+	switch rapid.IntRange(0, 5).Draw(t, "kind") {
+	case 5:
+		// grammar-built selector (mostly accepted), then at most one edit: hostile text sits inside strings, brackets
+		// nest, escapes precede quotes and brackets
+		sel := genSelector(t, 2)
+		if rapid.IntRange(0, 2).Draw(t, "edit") == 0 {
+			sel = strs.Mutate(t, sel, 1, selDict)
+		}
+		c.Selector = evid.BStr(sel)
 	case 4:
 		// bracket structure: few kinds of pieces, so that nesting, crossing and unbalanced sequences are all frequent
 		c.Selector = evid.BStr(strs.From(8, bracketDict).Draw(t, "sel"))
